@@ -18,8 +18,8 @@ META = {
 }
 MANIFEST_ENTRY = {
     "level_text": "Deductive proof for the three propagation functions, lazy-child creation, the universe column set/order built by setup and the per-row publication of child indices, for all trees and inputs; "
-    "construction-time wiring (Node.__init__/_add_children) and lazy==eager histories are a bounded stand-in on generated trees, labelled bounded.",
-    "level_note": "_add_children is an assumed (log-only) callee contract inside the lazy-child proof; the column-set model of setup assumes pandas column selection frame[list] / frame[c]=v / .copy() / DataFrame(frame) "
+    "the dict form of _add_children, Node.__init__ and lazy==eager histories are a bounded stand-in on generated trees, labelled bounded.",
+    "level_note": "_add_children is used through a log-only call-site contract inside the lazy-child proof (its body is verified per element, separately); the column-set model of setup assumes pandas column selection frame[list] / frame[c]=v / .copy() / DataFrame(frame) "
     "keep or append columns as modelled (A-PANDAS); setup_from_parent (dynamic sub-strategies) is not under contract; reach to all descendants is by induction over the tree (A-IND), not mechanised.",
     "technique": "contract-based deductive verification (pyvc VCs + z3; loop specs with per-iteration call-trace clauses; column-set model for setup); bounded real-code stand-in for construction forms",
 }
@@ -29,6 +29,7 @@ def tasks(tier, seed):
     return [
         func("bt.core.Node._set_root"), func("bt.core.Node.use_integer_positions"), func("bt.core.StrategyBase.set_commissions"),
         func("bt.core.StrategyBase._create_child_if_needed"),
+        func("bt.core.Node._add_children", variant="str"), func("bt.core.Node._add_children", variant="nodes"), func("bt.core.Node._add_children", variant="nodes-dc"),
         func("bt.backtest.Backtest.run"),
         dict(kind="custom", module="props.misc_tasks", fn="c09_constants"), dict(kind="custom", module="props.misc_tasks", fn="backtest_init_task"),
         dict(kind="custom", module="props.c19_tasks", fn="universe_scope_task"),
